@@ -25,6 +25,7 @@
  *   tall                                one server look at every registered descriptor
  *   inject <slot> <victim>              the slot's client (any local process) sends a well-formed request datagram to the
  *                                       victim connection's request address, if it can find one (socket transport)
+ *   respond 0|1                         msg_process answers each request with qb_ipcs_response_send (default: no)
  *   kill <slot>                         SIGKILL the client (nothing is tidied up on its side)
  *   end                                 kill all clients, let the server notice, destroy the service, census
  *
@@ -562,6 +563,7 @@ static int ord_of(qb_ipcs_connection_t *c)
 	return -1;
 }
 
+static int respond_on = 0;
 static int32_t cb_accept(qb_ipcs_connection_t *c, uid_t uid, gid_t gid)
 {
 	int ord = ndirs - 1;
@@ -579,6 +581,12 @@ static void cb_created(qb_ipcs_connection_t *c) { printf("cb created %d\n", ord_
 static int32_t cb_msg(qb_ipcs_connection_t *c, void *data, size_t size)
 {
 	printf("cb msg %d\n", ord_of(c));
+	if (respond_on) {
+		/* the first response makes the server connect() its datagram socket to the client's address */
+		struct qb_ipc_response_header rh;
+		rh.id = 0; rh.size = sizeof rh; rh.error = 0;
+		printf("responded %d %s\n", ord_of(c), qb_ipcs_response_send(c, &rh, sizeof rh) == (ssize_t)sizeof rh ? "ok" : "fail");
+	}
 	return 0;
 }
 static int32_t cb_closed(qb_ipcs_connection_t *c) { printf("cb closed %d\n", ord_of(c)); return 0; }
@@ -827,6 +835,7 @@ static void teardown(int print)
 	memset(conn_ptr, 0, sizeof conn_ptr);
 	memset(cl, 0, sizeof cl);
 	umask(022);
+	respond_on = 0;
 }
 
 /* ------------------------------------------------------------------ main */
@@ -938,6 +947,8 @@ int main(void)
 				run_jobs();
 			}
 			printf("chan %d\n", chan_count());
+		} else if (sscanf(line, "respond %d", &x1) == 1) {
+			respond_on = x1;
 		} else if (sscanf(line, "inject %d %d", &s, &x1) == 2 && s >= 0 && s < MAXS && x1 >= 0 && x1 < MAXS) {
 			int rc, vp = (int)cl[x1].pid;
 			if (!cl[s].alive) { printf("injected %d dead\n", s); continue; }
